@@ -1085,6 +1085,90 @@ extern "C" fn stress_txn(db: *mut rodbus_ffi::Database, ctx: *mut c_void) {
     }
 }
 
+// ------------------------------------------------------------------ the database is ONE map: overlapping transactions
+struct RaceCtx {
+    idx: u16,
+    value: u16,
+    added: bool,
+    got: i64,
+}
+extern "C" fn race_add(db: *mut rodbus_ffi::Database, ctx: *mut c_void) {
+    let c = unsafe { &mut *(ctx as *mut RaceCtx) };
+    unsafe {
+        // a little work inside the transaction widens the window in which the other one may (wrongly) overlap
+        c.added = ffi::rodbus_database_add_holding_register(db, c.idx, c.value);
+        for k in 0..40u16 {
+            ffi::rodbus_database_update_input_register(db, 60000 + (k % 4), k);
+        }
+    }
+}
+extern "C" fn race_get(db: *mut rodbus_ffi::Database, ctx: *mut c_void) {
+    let c = unsafe { &mut *(ctx as *mut RaceCtx) };
+    let mut out: u16 = 0;
+    let rc = unsafe { ffi::rodbus_database_get_holding_register(db, c.idx, &mut out) };
+    c.got = if rc == 0 { out as i64 } else { -1 };
+}
+extern "C" fn race_init(db: *mut rodbus_ffi::Database, _ctx: *mut c_void) {
+    unsafe {
+        for k in 0..4u16 {
+            ffi::rodbus_database_add_input_register(db, 60000 + k, 0);
+        }
+    }
+}
+
+/// two application threads add the SAME absent index in transactions started at the same instant: exactly one add
+/// succeeds and its value is the one stored
+fn db_add_race(sc: &Scenario, sink: &Sink) {
+    unsafe {
+        let rt = runtime();
+        let port = free_port();
+        let handler = ffi::WriteHandler { write_single_coil: None, write_single_register: None, write_multiple_coils: None, write_multiple_registers: None, on_destroy: None, ctx: std::ptr::null_mut() };
+        let cfg = ffi::DatabaseCallback { callback: Some(race_init), on_destroy: None, ctx: std::ptr::null_mut() };
+        let server = start_server(port, handler, cfg, rt);
+        let server_addr = server as usize;
+        let rounds = sc.block.max(1) as usize;
+        let barrier = Arc::new(std::sync::Barrier::new(2));
+        let results: Arc<Mutex<Vec<[bool; 2]>>> = Arc::new(Mutex::new(vec![[false; 2]; rounds]));
+        let mut threads = Vec::new();
+        for w in 0..2usize {
+            let barrier = barrier.clone();
+            let results = results.clone();
+            threads.push(std::thread::spawn(move || {
+                for i in 0..rounds {
+                    let mut ctx = RaceCtx { idx: i as u16, value: (w as u16 + 1) * 1000 + i as u16, added: false, got: -1 };
+                    let cb = ffi::DatabaseCallback { callback: Some(race_add), on_destroy: None, ctx: &mut ctx as *mut RaceCtx as *mut c_void };
+                    barrier.wait();
+                    ffi::rodbus_server_update_database(server_addr as *mut rodbus_ffi::Server, 1, cb);
+                    results.lock().unwrap()[i][w] = ctx.added;
+                }
+            }));
+        }
+        for t in threads {
+            let _ = t.join();
+        }
+        let (mut both, mut none, mut mismatch) = (0u64, 0u64, 0u64);
+        let res = results.lock().unwrap().clone();
+        for (i, r) in res.iter().enumerate() {
+            match (r[0], r[1]) {
+                (true, true) => both += 1,
+                (false, false) => none += 1,
+                _ => {
+                    let winner = if r[0] { 0 } else { 1 };
+                    let mut ctx = RaceCtx { idx: i as u16, value: 0, added: false, got: -1 };
+                    let cb = ffi::DatabaseCallback { callback: Some(race_get), on_destroy: None, ctx: &mut ctx as *mut RaceCtx as *mut c_void };
+                    ffi::rodbus_server_update_database(server, 1, cb);
+                    if ctx.got != ((winner as i64 + 1) * 1000 + i as i64) {
+                        mismatch += 1;
+                    }
+                }
+            }
+        }
+        sink.emit(json!({"e":"db_add_race","rounds":rounds,"both_added":both,"none_added":none,"stored_is_not_the_winners":mismatch}));
+        ffi::rodbus_server_destroy(server);
+        ffi::rodbus_runtime_destroy(rt);
+    }
+}
+
 fn db_stress(sc: &Scenario, sink: &Sink) {
     unsafe {
         let rt = runtime();
@@ -1190,6 +1274,7 @@ fn main() {
             "decode_levels" => decode_levels(&sc, &sink),
             "rtu_cabi" => rtu_cabi(&sc, &sink),
             "db_seq" => db_seq(&sc, &sink),
+            "db_add_race" => db_add_race(&sc, &sink),
             _ => db_stress(&sc, &sink),
         }));
         if r.is_err() {
